@@ -196,6 +196,38 @@ def note_hang(cfg, segs):
         raise StopCheck(f"feed_data did not return within {HANG_CPU_S} s of CPU on {len(HANGS)} inputs")
 
 
+def confirm_hang(cfg, segs):
+    """the watchdog measures the CPU time of the whole process, and a garbage collection over the harness's own
+    millions of pending cases can take seconds: a hang counts only if it happens again on a fresh parser with the
+    collector switched off and five times the budget"""
+    global HANG_CPU_S
+    import gc
+    p = make_parser(cfg)
+    kw = {"SEP": b"\n" if cfg.lax else b"\r\n"} if cfg.response else {}
+    was, budget = gc.isenabled(), HANG_CPU_S
+    gc.disable()
+    HANG_CPU_S = 5 * budget
+    try:
+        for seg in segs:
+            try:
+                _watch(True)
+                try:
+                    p.feed_data(seg, **kw)
+                finally:
+                    _watch(False)
+            except ParserHang:
+                return True
+            except BaseException as ex:  # noqa
+                if type(ex).__name__ == "_Runaway":
+                    raise
+                return False
+        return False
+    finally:
+        HANG_CPU_S = budget
+        if was:
+            gc.enable()
+
+
 def hang_report(ctx):
     for spec, stream, cuts, resp in HANGS:
         ctx.violation(f"C10/hang/feed_data-does-not-return/{'resp' if resp else 'req'}", {"cfg": spec, "stream": stream, "cuts": cuts},
@@ -246,6 +278,8 @@ def run_impl(cfg, segs, eof=False):
             if type(ex).__name__ == "_Runaway":
                 raise
             if isinstance(ex, ParserHang):
+                if not confirm_hang(cfg, segs):
+                    return run_impl(cfg, segs, eof)     # the watchdog fired on something else (a GC pause): run again
                 note_hang(cfg, segs)
             msgs, upgraded, rest, e = None, None, b"", ex
         created = [s for (k, s) in _log if k == "new"]
